@@ -130,8 +130,33 @@ class Harness:
             self._listing_cache[text] = p
         return p
 
+    # A "polluting" decoy operation: every global the rule compiler / matcher reads is set to a value that would change
+    # verdicts if it leaked into the next operation (both full-match flags on, an all-covering valid_addr_range, a
+    # sections list, two capture groups).  Run before every real compilation, so that every check also explores each
+    # case from a non-initial process state (state leaks are C14's subject, but they falsify every other property too).
+    DECOY_RULE = {"config": {"mnemonics-full-match": True, "operands-full-match": True, "sections": [".decoy"],
+                             "valid_addr_range": {"min": "0", "max": "ffffffffffffffff"}},
+                  "pattern": [{"call": ["&decoy1"]}, "&decoy2"]}
+    DECOY_LISTING = [("401000", "call", ["401030"]), ("401005", "jmp", ["401030"]), ("40100a", "mov", ["%rax", "%rbx"])]
+    decoy_every = 1
+
+    def _decoy(self):
+        self._decoys = getattr(self, "_decoys", 0) + 1
+        if not self.decoy_every or self._decoys % self.decoy_every:
+            return
+        gd = self.gd
+        rp = self.write(f"decoy_{os.getpid()}.yaml", yaml.safe_dump(self.DECOY_RULE, sort_keys=False))
+        lp = self.listing_file(fmt_listing(self.DECOY_LISTING))
+        cfg = gd.MatchConfig(pattern_pathstr=rp, input_file=lp, return_mode=gd.MatchingReturnMode.matched_addrs_list,
+                             matching_mode=gd.MatchingSearchMode.all_finds)
+        got = self.MasterOfPuppets(cfg).perform_matching()
+        if got != ["401000::call,valid_addr,|401005::jmp,valid_addr,|"]:
+            # the decoy itself misbehaves (e.g. under a seeded change): not a verdict of this check, carry on
+            pass
+
     def mop(self, rule_doc, *, macros=None, input_file="", binary=False, rule_path=None):
         gd = self.gd
+        self._decoy()
         path = rule_path or self.rule_file(rule_doc)
         cfg = gd.MatchConfig(
             pattern_pathstr=path,
